@@ -297,7 +297,7 @@ func (p *Proxy) accept(n *com.Packet) bool {
 	}
 	p.lock.RLock()
 	c, ok := p.clients[n.Device.Hash()]
-	if p.lock.RUnlock(); !ok {
+	if p.lock.RUnlock(); !ok || c.ID != n.Device {
 		return false
 	}
 	if isPacketNoP(n) {
